@@ -82,7 +82,8 @@ Eigen::Vector2d LambertConverter::toLambert(const WGS84Coordinates & wgs84Coordi
 //-----------------------------------------------------------------------------
 WGS84Coordinates LambertConverter::toWGS84(const Eigen::Vector2d & position) const
 {
-  double rho = std::sqrt(std::pow(position.x() - xs_, 2) + std::pow(position.y() - ys_, 2));
+  double rho = std::copysign(
+    std::sqrt(std::pow(position.x() - xs_, 2) + std::pow(position.y() - ys_, 2)), n_);
   double theta = std::atan((position.x() - xs_) / (ys_ - position.y()));
   return{computeLatitude(-std::log(rho / c_) / n_, e_), longitude0_ + theta / n_};
 }
